@@ -313,4 +313,33 @@ def streamToks (st : Style) (width : Nat) (lines : List (List Tok)) : List Tok :
 
 def linefeedToks (lines : List (List Tok)) : List Tok := lines.flatMap fun l => l ++ [Tok.c0 10]
 
+/-! ### the display path: `TupimageTerminal.display_only` for an integer id / a placeholder -/
+
+inductive FinalPos where
+  | bottomRight | topRight | topLeft | bottomLeft
+deriving DecidableEq, Repr
+
+/-- `GraphicsTerminal.move_cursor(up=…, left=…)`: vertical move first, nothing for 0. -/
+def moveCursorToks (up left : Nat) : List Tok :=
+  (if up = 0 then [] else [Tok.csi [up] 65]) ++ (if left = 0 then [] else [Tok.csi [left] 68])
+
+/-- `_move_cursor_to_final_position`; `none` is the `ValueError` -/
+def finalCursorToks (cols rows : Nat) (fp : FinalPos) (lf : Bool) : Option (List Tok) :=
+  match fp with
+  | .bottomRight => some []
+  | .topRight => if lf then none else some (moveCursorToks (rows - 1) 0)
+  | .topLeft => if lf then none else some (moveCursorToks (rows - 1) cols)
+  | .bottomLeft => if lf then some [.c0 10] else some (moveCursorToks 0 cols ++ [.esc 68])
+
+/-- bytes on the display stream of `display_only(id, start_col=…, …, fewer_diacritics, background, abs_pos,
+    final_cursor_pos, use_line_feeds)`; an error is reported whatever was written before it. -/
+def displayOnly (r : RawPlaceholder) (fewer : Bool) (bg : Background) (pos : Option (Nat × Nat)) (lf : Bool)
+    (fp : FinalPos) : Except PhErr Bytes :=
+  match toStream r pos (displayMode fewer) (getFormatting bg) true lf with
+  | .error e => .error e
+  | .ok b =>
+    match finalCursorToks (r.endCol - r.startCol).toNat (r.endRow - r.startRow).toNat fp lf with
+    | none => .error .value
+    | some t => .ok (b ++ serialize t)
+
 end Tup
